@@ -129,6 +129,7 @@ Definition c02_lu (n : nat) (doPivoting : bool) (A : seq (seq F)) (s : S) := c02
 End LU.
 
 (* ---- determinant *)
+Definition c02_cond (T : Type) (mask : bool) (a b : T) : T := if mask then a else b.   (* Simd::cond, one lane *)
 Definition c02_det3 (A : seq (seq F)) : F :=
   let a := c02_get A in
   let t4 := mul (a 0 0) (a 1 1) in let t6 := mul (a 0 0) (a 1 2) in let t8 := mul (a 0 1) (a 1 0) in
@@ -144,8 +145,10 @@ Definition c02_determinant (A : seq (seq F)) (doPivoting : bool) : c02_res F :=
   else
     let prod A' d := foldl (fun d i => mul d (c02_get A' i i)) d (iota 0 n) in
     match c02_lu c02_ElimDet n doPivoting A one (* ElimDet's constructor sets sign_ = 1 *) with
-    | C02_LU_Ok (A', sg) => C02_Ok (prod A' sg)
-    | C02_LU_Singular (A', sg) => C02_Ok (prod A' zero)          (* det = cond(nonsingularLanes, det, 0) *)
+    (* for i: det *= A[i][i];  then  det = cond(nonsingularLanes, det, 0)   (order as of /repo 1209091:
+       the selection comes AFTER the product) *)
+    | C02_LU_Ok (A', sg) => C02_Ok (c02_cond true (prod A' sg) zero)
+    | C02_LU_Singular (A', sg) => C02_Ok (c02_cond false (prod A' sg) zero)
     | C02_LU_DivByZero => C02_DivByZero
     end.
 
@@ -239,7 +242,7 @@ Definition c02_invert (A : seq (seq F)) (doPivoting : bool) : c02_res (seq (seq 
     | C02_LU_Singular _ => C02_FMatrixError
     | C02_LU_DivByZero => C02_DivByZero
     | C02_LU_Ok (LU, pivot) =>
-      (* this = 0; this[i][i] = 1 *)
+      (* this = field_type(0); this[i][i] = 1 *)
       let B0 := mkseq (fun i => mkseq (fun k => if Nat.eqb i k then one else zero) n) n in
       (* L Y = I:  for i: for j<i: for k: B[i][k] -= L[i][j]*B[j][k] *)
       let B1 := foldl (fun B i =>
